@@ -508,6 +508,22 @@ func init() {
 	intrinsics["time.Now"] = func(ex *Exec, fr *frame, fn *ssa.Function, args []Value) Value {
 		return ex.timeNow()
 	}
+	intrinsics["(time.Time).UnixNano"] = func(ex *Exec, fr *frame, fn *ssa.Function, args []Value) Value {
+		if st, ok := args[0].(Struct); ok && len(st) == 3 {
+			if ns, ok := st[0].(*T); ok {
+				if t, ok := ex.timeOrigin[ns]; ok {
+					if ext, ok := st[1].(*T); ok {
+						// only for an unmodified reading (same seconds term as built by timeFromUnixNano)
+						const unixToInternal = (1969*365 + 1969/4 - 1969/100 + 1969/400) * 86400
+						if ext == ex.c.Add(ex.c.SDiv(t, ex.intConst(1_000_000_000)), ex.intConst(unixToInternal)) {
+							return t
+						}
+					}
+				}
+			}
+		}
+		return ex.callFnNoIntrinsic(fr, fn, args)
+	}
 	intrinsics["time.Since"] = func(ex *Exec, fr *frame, fn *ssa.Function, args []Value) Value {
 		ex.nextOpaque++
 		d := ex.c.Var(fmt.Sprintf("since%d", ex.nextOpaque), BV(64))
@@ -631,6 +647,10 @@ func (ex *Exec) timeFromUnixNano(t *T) Value {
 	const unixToInternal = (1969*365 + 1969/4 - 1969/100 + 1969/400) * 86400
 	ext := c.Add(sec, ex.intConst(unixToInternal))
 	localLoc := ex.globalAddr(ex.prog.ImportedPackage("time").Var("localLoc"))
+	if ex.timeOrigin == nil {
+		ex.timeOrigin = map[*T]*T{}
+	}
+	ex.timeOrigin[nsec] = t // lets (time.Time).UnixNano return t itself instead of sec*1e9+nsec
 	return Struct{nsec, ext, localLoc}
 }
 
